@@ -63,8 +63,10 @@ def make_scratch(patch):
     return tmp, dst
 
 
-def run_child(prop, scratch_repo, evdir, cache=None):
+def run_child(prop, scratch_repo, evdir, cache=None, worker=None):
     env = dict(os.environ, MV_REPO=scratch_repo, VERIF_EVIDENCE_DIR=evdir, VERIF_SELFTEST_CHILD='1')
+    if worker is not None:
+        env['VERIF_TARGET_SUFFIX'] = '-e6w%d' % worker        # private target directory per parallel worker (bin/extract.sh)
     if cache:
         env['VERIF_FACTS_CACHE'] = cache
     p = subprocess.run([sys.executable, os.path.join(V, 'check'), prop, '--tier', 'quick'], cwd=V, env=env, capture_output=True, text=True)
@@ -86,32 +88,48 @@ def run_for(prop, ctx, baseline_keys):
     """Run the corpus entries relevant to `prop`; results are added to ctx as rule `<prop>.E6` instances."""
     rule = prop + '.E6'
     entries = [e for e in corpus() if e['kind'] == 'benign' or prop in (e.get('expect') or {})]
-    n = 0
-    for e in entries:
+    from concurrent.futures import ThreadPoolExecutor
+
+    import queue
+    jobs = int(os.environ.get('VERIF_E6_JOBS', '8'))
+    slots = queue.Queue()
+    for k in range(jobs):
+        slots.put(k)
+
+    def analyse(e):
         tmp, dst = make_scratch(e['patch'])
-        inst = '%s:%s' % (e['kind'], e['name'])
         if tmp is None:
-            ctx.notes.append('E6 %s: patch does not apply to the current working tree (skipped)' % inst)
-            continue
+            return e, None
+        k = slots.get()
         try:
             evdir = os.path.join(tmp, 'ev')
             os.makedirs(os.path.join(evdir, 'violations'), exist_ok=True)
-            rc, reports, out = run_child(prop, dst, evdir)
-            n += 1
-            ctx.evaluations += 1
-            new = [r for r in reports if r.get('key') not in baseline_keys]
-            if any(r.get('rule', '').endswith('.R0') for r in new):
-                ctx.notes.append('E6 %s: variant does not compile or could not be analysed (skipped): %s' % (inst, new[0].get('observed')))
-                continue
-            if e['kind'] == 'benign':
-                ctx.check(rule, inst, not new, 'new reports on a behaviour-preserving variant: %s' % ([r['rule'] + ' ' + r['instance'] for r in new][:3] or 'none'),
-                          'no rule fires', e['patch'], key_extra='benign-alarm')
-            else:
-                want = e['expect'][prop]
-                fired = sorted({r['rule'].split('.')[-1] for r in new if r.get('kind') == 'violation'})
-                fired_any = sorted({r['rule'].split('.')[-1] for r in new})
-                ok = all(w in fired for w in want)
-                ctx.check(rule, inst, ok, 'rules reporting a violation: %s (incl. incomplete: %s)' % (fired or 'none', fired_any or 'none'), 'rule(s) %s fire and name the broken instance' % want, e['patch'], key_extra='missed:%s' % ','.join(w for w in want if w not in fired))
+            rc, reports, out = run_child(prop, dst, evdir, worker=k)
+            return e, reports
         finally:
+            slots.put(k)
             shutil.rmtree(tmp, ignore_errors=True)
+    n = 0
+    with ThreadPoolExecutor(max_workers=jobs) as ex:
+        results = list(ex.map(analyse, entries))
+    for e, reports in results:
+        inst = '%s:%s' % (e['kind'], e['name'])
+        if reports is None:
+            ctx.notes.append('E6 %s: patch does not apply to the current working tree (skipped)' % inst)
+            continue
+        n += 1
+        ctx.evaluations += 1
+        new = [r for r in reports if r.get('key') not in baseline_keys]
+        if any(r.get('rule', '').endswith('.R0') for r in new):
+            ctx.notes.append('E6 %s: variant does not compile or could not be analysed (skipped): %s' % (inst, new[0].get('observed')))
+            continue
+        if e['kind'] == 'benign':
+            ctx.check(rule, inst, not new, 'new reports on a behaviour-preserving variant: %s' % ([r['rule'] + ' ' + r['instance'] for r in new][:3] or 'none'),
+                      'no rule fires', e['patch'], key_extra='benign-alarm')
+        else:
+            want = e['expect'][prop]
+            fired = sorted({r['rule'].split('.')[-1] for r in new if r.get('kind') == 'violation'})
+            fired_any = sorted({r['rule'].split('.')[-1] for r in new})
+            ok = all(w in fired for w in want)
+            ctx.check(rule, inst, ok, 'rules reporting a violation: %s (incl. incomplete: %s)' % (fired or 'none', fired_any or 'none'), 'rule(s) %s fire and name the broken instance' % want, e['patch'], key_extra='missed:%s' % ','.join(w for w in want if w not in fired))
     ctx.notes.append('E6: %d variants analysed for %s' % (n, prop))
